@@ -459,6 +459,7 @@ func newKindSys(c *vCtx, cfg vVecCfg, nids int) *vKindSys {
 }
 
 func (s *vKindSys) Reset() {
+	vResetGlobals()
 	train := s.train
 	if s.aliasTrain {
 		// fresh caller-owned slices for this instance; they are given to Train as they
